@@ -856,5 +856,9 @@ pub fn replay(part: &str, bytes: &[u8], case: &Value, stats: &mut Stats) -> Verd
 /// Byte-level entry for the fuzz target: layer A (in-process, stateful).
 pub fn fuzz_entry(bytes: &[u8]) -> Verdict {
     let mut st = Stats::new();
-    part_a(bytes, &mut st)
+    if bytes.first().map(|b| b & 0x80 != 0).unwrap_or(false) {
+        part_selfplay(bytes, &mut st)
+    } else {
+        part_a(bytes, &mut st)
+    }
 }
